@@ -129,5 +129,112 @@ theorem history_then_drop {ops : List Op} (hv : ∀ op ∈ ops, op.Valid) (hc : 
     simp only [List.map_append, List.append_nil] at hnd ⊢
     exact hnd
 
+/-! ## (ii) the three structural effects: what leaves storage is in the ledger
+
+One delivery, from a world satisfying the invariant (`WInv`: the state the handlers of the delivery left satisfies it,
+`Obl.glue_runHandler`; for a reachable world `ReachStore.winv`), on normal return of the built-in effect
+(`C09.effect_iff`: the target is alive and no handler took the event).  `old` is the value `World::get` reads before the
+effect; if its component type has a destructor, `(type, serial)` is in the ledger afterwards.  "At most once" is
+`C12History`. -/
+
+theorem logged_of_dropLog {w : World} {c : Nat} {y : Cell} {pairs : List (Nat × Cell)} (hm : (c, y) ∈ pairs)
+    (hn : compNeedsDrop (w.compTy c) = true) (D : List (Nat × Nat)) :
+    (w.compTy c, y.ser) ∈ dropLog w pairs ++ D :=
+  List.mem_append_left _ (mem_dropLog.2 ⟨(c, y), hm, hn, rfl, rfl⟩)
+
+open ReachStore in
+/-- **(ii) `Insert` over an existing component: the overwritten value is destroyed** -/
+theorem insert_overwrite_old_destroyed {w w' : World} (hw : WInv w) {it : QItem} {info : EvInfo} {loc : Loc} {c : Nat}
+    {e : Key} {old : Cell} (hkind : info.kind = .insert c) (hloc : w.entities.get e = some loc)
+    (h : (effectPhase it info loc).run.run w = (.ok (), w')) (hold : w.getCell e c = some old)
+    (hn : compNeedsDrop (w.compTy c) = true) : (w.compTy c, old.ser) ∈ w'.cdrops := by
+  rw [effectPhase_insert hkind] at h
+  obtain ⟨⟨⟩, w0, h0, h⟩ := run_bind_ok h
+  cases dbgAssert_ok h0
+  obtain ⟨d, w1, h1, h2⟩ := run_bind_ok h
+  obtain ⟨sa, hsa, -, hcs, -, hiff⟩ := read_winv hw hloc
+  obtain ⟨ok1, hents, hreads, ⟨sa1, hsa1, hsac⟩, b, hb, hbc, hsame⟩ := traverseInsert_store_winv hw hsa h1
+  have hloc1 : w1.entities.get e = some loc := by rw [hents]; exact hloc
+  have hc : c ∈ sa.comps := (hiff c).1 (by rw [hold]; rfl)
+  have hcd : w1.cdrops = w.cdrops := by
+    have := (CompLedger.traverseInsert_cd (D := w.cdrops) loc.arch c).run w rfl
+    rw [h1] at this; exact this
+  have hty : w1.compTy c = w.compTy c := by
+    have := (traverseInsert_cc (c := w.compsCore) loc.arch c).run w rfl
+    rw [h1] at this
+    exact CompLedger.compTy_of_core this c
+  cases hsame hc
+  obtain ⟨old', g1, -, -, -, g5⟩ := world_insert_get_self_same ok1 hloc1 hsa1 (hsac ▸ hc) h2
+  rw [(hreads e).1 c, hold] at g1
+  cases g1
+  rw [g5, ← hty]
+  exact logged_of_dropLog (List.mem_singleton.2 rfl) (hty ▸ hn) _
+
+open ReachStore in
+/-- **(ii) `Remove`: the removed value is destroyed** -/
+theorem remove_effect_old_destroyed {w w' : World} (hw : WInv w) {it : QItem} {info : EvInfo} {loc : Loc} {c : Nat}
+    {e : Key} {old : Cell} (hkind : info.kind = .remove c) (hloc : w.entities.get e = some loc)
+    (h : (effectPhase it info loc).run.run w = (.ok (), w')) (hold : w.getCell e c = some old)
+    (hn : compNeedsDrop (w.compTy c) = true) : (w.compTy c, old.ser) ∈ w'.cdrops := by
+  rw [effectPhase_remove hkind] at h
+  obtain ⟨d, w1, h1, h2⟩ := run_bind_ok h
+  obtain ⟨sa, hsa, -, hcs, -, hiff⟩ := read_winv hw hloc
+  obtain ⟨ok1, hents, hreads, ⟨sa1, hsa1, hsac⟩, b, hb, hbc, hsame⟩ := traverseRemove_store_winv hw hsa h1
+  have hloc1 : w1.entities.get e = some loc := by rw [hents]; exact hloc
+  have hc : c ∈ sa.comps := (hiff c).1 (by rw [hold]; rfl)
+  have hty : w1.compTy c = w.compTy c := by
+    have := (traverseRemove_cc (c := w.compsCore) loc.arch c).run w rfl
+    rw [h1] at this
+    exact CompLedger.compTy_of_core this c
+  rw [← hsac] at hbc
+  obtain ⟨old', g1, -, -, -, g5⟩ := world_remove_get_self ok1 hloc1 hsa1 hb (hsac ▸ hc) hbc h2
+  rw [(hreads e).1 c, hold] at g1
+  cases g1
+  rw [g5, ← hty]
+  exact logged_of_dropLog (List.mem_singleton.2 rfl) (hty ▸ hn) _
+
+open ReachStore in
+/-- **(ii) `Despawn`: every value of the despawned entity is destroyed** -/
+theorem despawn_effect_all_destroyed {w w' : World} (hw : WInv w) {it : QItem} {info : EvInfo} {loc : Loc} {e : Key}
+    (hkind : info.kind = .despawn) (hloc : w.entities.get e = some loc)
+    (h : (effectPhase it info loc).run.run w = (.ok (), w')) {c : Nat} {y : Cell} (hy : w.getCell e c = some y)
+    (hn : compNeedsDrop (w.compTy c) = true) : (w.compTy c, y.ser) ∈ w'.cdrops := by
+  rw [effectPhase_despawn hkind] at h
+  obtain ⟨w1, w2, h1, h2, h3⟩ := despawn_run_ok h
+  rw [despawn_refresh_cannot_fail h1 h2] at h3
+  cases h3
+  obtain ⟨⟨ok1, -⟩, hkeep⟩ := world_spawnAll hw.storeOk hw.hasEmpty h1
+  obtain ⟨hloc1, hg1, hc1⟩ := hkeep e loc hloc
+  obtain ⟨sa, hsa, -, hcs, -, hiff⟩ := read_winv hw hloc
+  have hty : w1.compTy c = w.compTy c := by
+    have := (spawnAll_cc (c := w.compsCore)).run w rfl
+    rw [h1] at this
+    exact CompLedger.compTy_of_core this c
+  obtain ⟨dropped, cs, -, hcs', hd, hcd, -⟩ := world_remove_ledger ok1 hloc1 h2
+  have hcs_eq : cs = sa.comps := by
+    rw [hc1, hcs] at hcs'; exact (Option.some.inj hcs').symm
+  have hc : c ∈ cs := by rw [hcs_eq]; exact (hiff c).1 (by rw [hy]; rfl)
+  obtain ⟨j, hj⟩ := List.mem_iff_getElem?.1 hc
+  have hdj : dropped[j]? = some y := by
+    have := congrArg (fun l => l[j]?) hd
+    simp only [List.getElem?_map, hj, Option.map_some, hg1 c, hy] at this
+    cases hdd : dropped[j]? with
+    | none => rw [hdd] at this; cases this
+    | some z => rw [hdd] at this; simp only [Option.map_some, Option.some.injEq] at this; rw [this]
+  show (w.compTy c, y.ser) ∈ w2.cdrops
+  rw [hcd, ← hty]
+  exact logged_of_dropLog (mem_zip_of_getElem? hj hdj) (hty ▸ hn) _
+
+/-- the three effects from a world the driver reaches (`Reach`, `Small`): nothing but reachability is assumed -/
+theorem reachable_effects_no_leak {w w' : World} (hr : Reach w) (hs : Small w) {it : QItem} {info : EvInfo} {loc : Loc}
+    {e : Key} (hloc : w.entities.get e = some loc) (h : (effectPhase it info loc).run.run w = (.ok (), w')) {c : Nat}
+    {y : Cell} (hy : w.getCell e c = some y) (hn : compNeedsDrop (w.compTy c) = true) :
+    (info.kind = .insert c → (w.compTy c, y.ser) ∈ w'.cdrops) ∧
+    (info.kind = .remove c → (w.compTy c, y.ser) ∈ w'.cdrops) ∧
+    (info.kind = .despawn → (w.compTy c, y.ser) ∈ w'.cdrops) :=
+  ⟨fun hk => insert_overwrite_old_destroyed (ReachStore.winv hr hs) hk hloc h hy hn,
+   fun hk => remove_effect_old_destroyed (ReachStore.winv hr hs) hk hloc h hy hn,
+   fun hk => despawn_effect_all_destroyed (ReachStore.winv hr hs) hk hloc h hy hn⟩
+
 end C12NoLeak
 end Evenio
